@@ -346,7 +346,27 @@ pub fn consume(ctx: &mut Ctx, s: &Session, l1: &[Mv]) -> Step {
             let ops = ops_for!(it);
             ctx.stats.bump("c10.legals_masked");
             let _ = name;
-            let model = Model { remaining: l1.iter().copied().filter(|x| m >> x.to & 1 == 1).collect(), yielded: vec![], removed: vec![], mask: m };
+            // The statement fixes what a masked generator yields under its own mask; it does not
+            // say whether moves outside that mask exist in the iterator at all (today they do
+            // not) or are merely hidden until the mask is widened.  Ask the iterator which of the
+            // two it is - a clone with the full mask holds either |legal & m| or |legal| moves -
+            // and hold it to that reading for the rest of the sequence.  Anything else is wrong
+            // under both.
+            let restricted: Vec<Mv> = l1.iter().copied().filter(|x| m >> x.to & 1 == 1).collect();
+            let total = op(Op::Iterate, || {
+                let mut probe = it.clone();
+                (ops.set_mask)(&mut probe, sut::bb(!0));
+                (ops.len)(&probe)
+            });
+            let remaining = if total == restricted.len() {
+                restricted
+            } else if total == l1.len() {
+                ctx.stats.bump("c10.legals_masked.keeps-hidden-moves");
+                l1.to_vec()
+            } else {
+                return ctx.fail(Prop::C10, "masked-gen.count", String::new(), format!("legals_masked({m:x}) holds {total} moves under the full mask; {} legal moves have their destination in the mask and {} exist in all; {}", restricted.len(), l1.len(), s.model.fen()));
+            };
+            let model = Model { remaining, yielded: vec![], removed: vec![], mask: m };
             drive(ctx, s, it, &ops, model, true, false)
         }
         _ => {
